@@ -23,6 +23,15 @@ Definition lower (c : N) : N := if (65 <=? c) && (c <=? 90) then c + 32 else c.
 
 Section KanaAlpha.
   Variable table : list (str * str * str).     (* hiragana, katakana, first spelling - in source order *)
+  Variable doubling : list N.                  (* DOUBLING_CONSONANTS *)
+  Variable sokuon_spelling : str.              (* SOKUON_SPELLING *)
+
+  (** spell_sokuon: the consonant that follows is doubled when it can be, else the sokuon's own spelling *)
+  Definition spell_sokuon (next : option N) (k : nat) : str :=
+    match next with
+    | Some c => if mem_chr (lower c) doubling then repeat (lower c) k else concat (repeat sokuon_spelling k)
+    | None => concat (repeat sokuon_spelling k)
+    end.
 
   (** the final [vec.sort_by(|a, b| b.hiragana.len().cmp(&a.hiragana.len()))]: stable, by byte length, descending *)
   Fixpoint insert_sorted (x : str * str * str) (l : list (str * str * str)) : list (str * str * str) :=
@@ -40,7 +49,7 @@ Section KanaAlpha.
     if starts_with hira r || starts_with kata r then
       let a := match k with
                | O => sp
-               | _ => concat (repeat (firstn 1 sp) k) ++ sp
+               | _ => spell_sokuon (hd_error sp) k ++ sp
                end in
       Some (a, (length hira + k)%nat)
     else None.
@@ -60,7 +69,11 @@ Section KanaAlpha.
   Definition to_roma_sequence (s : str) : str * str :=
     match pick (filter_map (fun conv => expand_roma conv s) sorted_table) with
     | Some (v, len) => (v, skipn len s)
-    | None => match s with c :: rest => ([lower c], rest) | [] => ([], []) end
+    | None =>
+      match strip_sokuon_run s with
+      | (S k, r) => (spell_sokuon (hd_error r) (S k), r)          (* expand_lonely_sokuon *)
+      | (O, _) => match s with c :: rest => ([lower c], rest) | [] => ([], []) end
+      end
     end.
 
   (** convert; [None] = out of fuel *)
